@@ -366,6 +366,7 @@ func RunTransfer(env *Env, plan *TransferPlan) {
 	}
 	env.NonTriv = w.writesBegun > 0
 	env.SigAdd("np=%d nf=%d pl=%d peers=%d ws=%d", T.NumPieces, len(T.Files), T.PieceLen, len(plan.Peers), len(plan.Webseeds))
+	simrt.FreezeTrace()
 	for _, a := range w.peers {
 		a.Stop()
 	}
